@@ -90,8 +90,39 @@ impl Outcome {
 	}
 }
 
+/// The breadcrumb of one translation: `translate <from|detect> <to> <slice|reader:caps>`.
+pub fn crumb_text(supply: &Supply, from: Option<Fmt>, to: Fmt) -> String {
+	let sup = match supply {
+		Supply::Slice => "slice".to_string(),
+		Supply::Reader(s) => format!("reader:{}", s.iter().map(|n| n.to_string()).collect::<Vec<_>>().join(",")),
+	};
+	format!("translate {} {} {}", from.map(Fmt::name).unwrap_or("detect"), to.name(), sup)
+}
+
+/// Runs a breadcrumb of that form again (three times); `None` if it has another form.
+pub fn replay_crumb(text: &str, data: &[u8]) -> Option<Outcome> {
+	let f: Vec<&str> = text.split(' ').collect();
+	if f.len() != 4 || f[0] != "translate" {
+		return None;
+	}
+	let from = if f[1] == "detect" { None } else { Some(Fmt::from_name(f[1])?) };
+	let to = Fmt::from_name(f[2])?;
+	let supply = if f[3] == "slice" {
+		Supply::Slice
+	} else {
+		let caps = f[3].strip_prefix("reader:")?;
+		Supply::Reader(caps.split(',').filter(|s| !s.is_empty()).filter_map(|s| s.parse().ok()).collect())
+	};
+	let mut last = None;
+	for _ in 0..3 {
+		last = Some(translate(data, &supply, from, to));
+	}
+	last
+}
+
 /// Translates one input; a panic is reported as `Err("PANIC: …")`.
 pub fn translate(input: &[u8], supply: &Supply, from: Option<Fmt>, to: Fmt) -> Outcome {
+	crate::util::crumb::set(&crumb_text(supply, from, to), input);
 	let mut w = FaultWriter::new(None, vec![]);
 	let r = catch(|| match supply {
 		Supply::Slice => xt::translate_slice(input, from.map(Fmt::xt), to.xt(), &mut w),
